@@ -109,12 +109,43 @@ func init() {
 func genC09(r *Rand, tier string, ord int) *Trial {
 	w := r.Range(3, 20)
 	nq, nt := r.Range(1, 5), r.Range(1, 14)
+	kind, sub := "topranking-4combos", "generated"
+	switch {
+	case r.P(0.002):
+		w, nq, nt, kind, sub = r.Range(2, 4), r.Range(1, 2), r.Range(1030, 1400), "topranking-4combos-thousand-targets", "generated-thousand-targets"
+	case r.P(0.004):
+		w, nq, nt, kind, sub = r.Range(3, 6), r.Range(1, 3), r.Range(100, 300), "topranking-4combos-hundreds-of-targets", "generated-hundreds-of-targets"
+	case r.P(0.003): // wide enough for a csv row (one record's SNP list) of more than 64 KiB
+		w, nq, nt, kind, sub = r.Range(11000, 14000), r.Range(1, 2), r.Range(2, 5), "topranking-4combos-wide", "generated-wide"
+		if r.P(0.3) {
+			w = scaleWidthUpTo(r, 16)
+		}
+	}
 	ref, q, tg := genUpdownAln(r, w, nq, nt)
+	if sub == "generated-wide" {
+		// one record that differs from the reference everywhere, not the last one
+		k := r.Intn(len(tg.Seqs))
+		if k == len(tg.Seqs)-1 && k > 0 {
+			k--
+		}
+		b := []byte(tg.Seqs[k])
+		for i := range b {
+			b[i] = "CGTA"[strings.IndexByte("ACGT", ref[i])]
+		}
+		tg.Seqs[k] = string(b)
+		if r.Bool() {
+			q.Seqs[0] = tailSNPs(r, ref, string(b))
+		}
+	}
 	c := Case{Cmd: "topranking", Files: map[string]string{"ref": ">ref\n" + ref + "\n", "query": q.FASTA(genLayout(r)), "target": tg.FASTA(genLayout(r))}}
 	c.Opts = genTROpts(r, tg.Names)
 	c.Opts.Threads = 1
-	t := &Trial{Kind: "topranking-4combos", Case: c, Params: map[string]string{}}
+	t := &Trial{Kind: kind, Case: c, Params: map[string]string{}}
 	t.Runs = genRunCfgs(r, 6)
+	manyTargetRuns(r, t.Runs, sub, nt)
+	if sub != "generated" {
+		return t
+	}
 	if r.P(0.3) { // keep some trials entirely on the baseline policy: a failure there needs no schedule at all
 		for i := range t.Runs {
 			t.Runs[i] = P0()
